@@ -7,6 +7,7 @@ version 4, inner length equal, JSON decodes); it inspects only bytes below e (`r
 -/
 import Gkv.Proofs.Scan
 import Gkv.Proofs.FlushFrame
+import Gkv.Proofs.CrashOpen
 open Std
 
 namespace Gkv.Props.C03
@@ -49,5 +50,20 @@ theorem crash_images_keep_prefix (cs : List Coll) (s : FileSt) (hsz : s.size ≤
 /-- a single (possibly torn) write at or beyond E keeps the prefix -/
 theorem torn_write_keeps_prefix (f b : Bytes) (off E c : Nat) (h : E ≤ off) (hf : off ≤ f.length) :
     (writeAt f off (b.take c)).take E = f.take E := take_writeAt f (b.take c) off E h hf
+
+/-- full strength: ANY surviving image that keeps the bytes of the last completed Flush and has no
+    complete root record above it re-opens to EXACTLY the collections of that Flush (names,
+    comparators, items, aggregates — for all collections together), whatever the names are -/
+theorem crash_recovers_last_completed_flush (fid : Nat) (cmpOf : Bytes → CmpKind) (cs : List Coll) (s : FileSt)
+    (hf : s.failed = false) (hp : s.failAt = none) (hsz : s.size = s.bytes.length)
+    (hc : ∀ c ∈ cs, c.root.Coherent s.bytes s.size) (hok : ∀ c ∈ cs, c.root.SizesOK)
+    (hnames : cs.Pairwise (fun a b => compare a.name b.name = .lt))
+    (hcmp : ∀ c ∈ cs, cmpOf c.name = c.cmp)
+    (hlim : (flushStore cs s).2.size < 2^32)
+    (g : Bytes) (hge : (flushStore cs s).2.size ≤ g.length)
+    (hpre : g.take (flushStore cs s).2.size = (flushStore cs s).2.bytes)
+    (hjunk : ∀ e', (flushStore cs s).2.size < e' → e' ≤ g.length → rootAt g e' = none) :
+    openStore fid g cmpOf = .ok ⟨some fid, (flushStore cs s).2.size, (flushStore cs s).1, false⟩ :=
+  open_crash_image_full fid cmpOf cs s hf hp hsz hc hok hnames hcmp hlim g hge hpre hjunk
 
 end Gkv.Props.C03
